@@ -1,4 +1,5 @@
 import NeumannModel.Ckpt.Lemmas
+import NeumannModel.Ckpt.Sim
 /-
   C08 — "rolling back to a checkpoint restores exactly the checkpointed database".
   ONLY property statements and their non-vacuity examples; helpers are in `Lemmas.lean`.
@@ -96,33 +97,54 @@ example :
       (.cache 1, .raw (some 6) none)] ∧
     d0.st.eslab = [(1, 3), (2, 4), (3, -1)] := by decide
 
-/-- `usable_after_rollback`, the part that holds: when the checkpointed database held no table rows,
-    the store after the rollback has the checkpointed metadata slab, cache, (empty) relational slab
-    and checkpoint records, and satisfies the store invariant again — so `rollback_exact_partial`
-    applies to every further checkpoint / rollback cycle started from it.  It differs from the
-    checkpointed store only in entity ids (`eidx`/`enext` and the ids keying `eslab`), which no
-    statement answers with.
-    Missing: a proof that every further statement ANSWERS the same (a simulation up to entity ids),
-    the engine-side state (id counters keep their post-checkpoint values — harmless, ids stay
-    unique; label index / HNSW cache stale — witnesses above), and databases with tables
-    (`writes_fail_after_rollback_witness`). -/
-theorem usable_after_rollback_partial (pre post : List Op) (ts : Nat) (ord : List Nat) (nm x : Nat)
-    (o : List Nat) (d3 : Db) :
+/-- `usable_after_rollback`, the part that holds — "the database remains fully usable for further
+    writes, and further checkpoint / rollback cycles behave": when the checkpointed database held no
+    table rows, then for EVERY further statement sequence `more` (data statements of all three
+    engines, raw keys, further checkpoints, rollbacks, deletes, retention) the database after the
+    rollback ANSWERS every statement exactly like `dref`, the database whose store is literally the
+    checkpointed store `d0.st` (with the engine-side state and the blob archive as they are at
+    rollback time), and after `more` every observation (table scans and index-path queries, graph,
+    embeddings, searches, raw keys, the checkpoint listing) is the same.  The restored store differs
+    from the checkpointed one only in entity ids / slab slots; the proof is a simulation
+    (`Sim.lean`: `StoreSim` — equal metadata slab, cache, relational slab, checkpoint records, both
+    satisfying the store invariant — is preserved by every statement with equal answers), i.e.
+    entity ids are unobservable, now a theorem instead of an assumption.
+    Still missing w.r.t. the full statement (each is FALSE of the code, see the witnesses above):
+    databases with tables (`writes_fail_after_rollback_witness`), and the engine-side state being
+    the checkpoint-time one (`dref` keeps the rollback-time label index / HNSW cache / id counters). -/
+theorem usable_after_rollback_partial (pre post more : List Op) (ts : Nat) (ord : List Nat) (nm x : Nat)
+    (o : List Nat) (d3 : Db) (p : Probes) :
     let d0 := run {} pre
     let d2 := run (step d0 (.ckpt ts ord nm)).1 post
+    let dref : Db := { d2 with st := d0.st }
     resolve d2 o x = some d0.nextCk → step d2 (.rollback x o) = (d3, .ok) → d0.st.rel = [] →
-      d3.st.md = d0.st.md ∧ d3.st.cache = d0.st.cache ∧ d3.st.rel = d0.st.rel ∧
-      d3.st.cps = d0.st.cps ∧ WF d3.st := by
-  intro d0 d2 hr hstep hrel
-  have h := rollback_exact_partial pre post ts ord nm x o d3 hr hstep
-  exact ⟨h.1, h.2.1, by rw [h.2.2.1, hrel], h.2.2.2.2.1, h.2.2.2.2.2⟩
+      runRes d3 more = runRes dref more ∧ obs p (run d3 more) = obs p (run dref more) ∧
+      qCkpts (run d3 more) = qCkpts (run dref more) ∧ WF d3.st := by
+  intro d0 d2 dref hr hstep hrel
+  have hinv0 : DbInv d0 := DbInv.init.run pre
+  have hinv2 : DbInv d2 := (hinv0.step _).run post
+  have h := rollback_core d0 d2 hinv0.wf x o d3
+    (fun c hl => load_after d0 hinv0 ts ord nm post o x c hr hl) hstep
+  have hsim : DbSim d3 dref := by
+    rw [h.2.2.2.2.2.2]
+    exact ⟨restore_sim hinv0.wf hrel d2.st, rfl, ArchSim.refl _ hinv2.arch, rfl, rfl⟩
+  have h1 := sim_run d3 dref hsim more
+  have h2 := sim_obs _ _ h1.2 p
+  exact ⟨h1.1, h2.1, h2.2, h.2.2.2.2.2.1⟩
 
 example :
-    let pre : List Op := [.gnode 1, .vput 0 [1, 2, 3], .kput 1 1 6 none, .kput 2 4 1 (some 2)]
+    let pre : List Op := [.kput 2 9 1 (some 1), .gnode 1, .vput 0 [1, 2, 3], .kput 1 1 6 none, .kdel 2 9,
+      .kput 2 4 1 (some 2)]
     let d0 := run {} pre
     let d2 := run (step d0 (.ckpt 60 [] 1005)).1 [.gdeln 1]
+    let d3 := (step d2 (.rollback d0.nextCk [])).1
+    let more : List Op := [.gnode 2, .kput 2 4 9 (some 1), .kput 2 5 1 (some 5), .ckpt 70 [] 1006, .vdel 0,
+      .rollback 1006 [], .gedge 1 2]
     d0.st.rel = [] ∧ resolve d2 [] d0.nextCk = some d0.nextCk ∧
-    (step d2 (.rollback d0.nextCk [])).2 = .ok := by decide
+    (step d2 (.rollback d0.nextCk [])).2 = .ok ∧
+    -- the restored store is NOT the checkpointed one (entity ids differ), yet answers alike
+    d3.st ≠ d0.st ∧ d3.st.enext ≠ d0.st.enext ∧
+    runRes d3 more = [.id 2, .ok, .ok, .id 1, .ok, .ok, .id 1] := by decide
 
 /-- retention, for EVERY listing `L` (any order among equal timestamps) and EVERY count: what
     `enforce` keeps (`take max` of the stable newest-first sort) has `min max |L|` elements, together
